@@ -148,6 +148,10 @@ func e2eHarness(rc *RunCtx) {
 	var addSpec []mwSpec
 	if rc.Prop == "C16" && tp.Intn("cfg", 3) == 0 {
 		addSpec = append(addSpec, mwSpec{name: "added0", rewrite: tp.Intn("cfg", 2) == 1})
+		for i, n := 1, tp.Intn("added", 3); i <= n; i++ {
+			// several AddMiddleware calls, every middleware built by the same constructor
+			addSpec = append(addSpec, mwSpec{name: fmt.Sprintf("added%d", i), rewrite: tp.Intn("added", 2) == 1})
+		}
 	}
 	rc.Sample["middleware"] = fmt.Sprintf("client=%d provider=%d processor=%d added=%d", len(cliSpec), len(provSpec), len(srvSpec), len(addSpec))
 	if len(cliSpec)+len(provSpec)+len(srvSpec)+len(addSpec) > 0 {
